@@ -606,6 +606,7 @@ traversal:
 		ft := f.transform()
 		cpath := clientPathFromTransform(ft)
 		if row := p.clients[cpath]; len(row) > 0 {
+			p.mu.Unlock()
 			return row[0].client
 		}
 		c, pr := NewPromisedClient(pipelineClient{
